@@ -26,26 +26,44 @@ BANNERS = {POWER: ['HEATING, COOLING AND/OR ELECTRICITY PRODUCTION PROFILE', POW
 
 # ------------------------------------------------------------------------------------------ the real client
 
-def client_parse(text, workdir):
-    """GeophiresXResult on a file holding `text` -> {'raised', 'result', 'csv', 'csv_raised'} (picklable)"""
+def observe(path):
+    """everything the property looks at on ONE GeophiresXResult object: the parsed result, as_csv() twice, and the
+    result again afterwards.  An exception of the client is an observation, never an error of the harness."""
+    import copy
     from geophires_x_client.geophires_x_result import GeophiresXResult
+    out = {'raised': None, 'result': None, 'csv': None, 'csv_raised': None, 'csv2': None, 'csv2_raised': None, 'result_kept': True}
+    try:
+        r = GeophiresXResult(path)
+        strip = lambda d: {k: v for k, v in d.items() if k != 'metadata'}
+        out['result'] = copy.deepcopy(strip(r.result))
+        out['metadata'] = {k: v for k, v in r.result['metadata'].items() if k != 'output_file_path'}
+        for key in ('csv', 'csv2'):
+            try:
+                out[key] = r.as_csv()
+            except Exception as e:  # noqa
+                out[key + '_raised'] = f'{type(e).__name__}: {e}'[:200]
+        try:
+            after = copy.deepcopy(strip(r.result))
+            out['result_kept'] = after == out['result']
+            if not out['result_kept']:
+                out['result_after'] = {k: (after.get(k)[:2] if isinstance(after.get(k), list) else after.get(k))
+                                       for k in out['result'] if after.get(k) != out['result'][k]}
+        except Exception as e:  # noqa
+            out['result_kept'], out['result_after'] = False, f'{type(e).__name__}: {e}'[:200]
+    except Exception as e:  # noqa
+        out['raised'] = type(e).__name__
+    return out
+
+
+def client_parse(text, workdir):
+    """GeophiresXResult on a file holding `text` (picklable observation, see observe)"""
     fd, p = tempfile.mkstemp(suffix='.out', dir=workdir)
     with os.fdopen(fd, 'w', encoding='ascii', newline='') as f:
         f.write(text)
-    out = {'raised': None, 'result': None, 'csv': None, 'csv_raised': None}
     try:
-        r = GeophiresXResult(p)
-        out['result'] = {k: v for k, v in r.result.items() if k != 'metadata'}
-        out['metadata'] = {k: v for k, v in r.result['metadata'].items() if k != 'output_file_path'}
-        try:
-            out['csv'] = r.as_csv()
-        except Exception as e:  # noqa
-            out['csv_raised'] = type(e).__name__
-    except Exception as e:  # noqa
-        out['raised'] = type(e).__name__
+        return observe(p)
     finally:
         os.unlink(p)
-    return out
 
 
 def _job(args):
@@ -86,17 +104,7 @@ def _history_main(argv):
     for t in texts:
         with open(path, 'w', encoding='ascii', newline='') as f:
             f.write(t)
-        r = {'raised': None, 'result': None, 'csv': None, 'csv_raised': None}
-        try:
-            g = GeophiresXResult(path)
-            r['result'] = {k: v for k, v in g.result.items() if k != 'metadata'}
-            try:
-                r['csv'] = g.as_csv()
-            except Exception as e:  # noqa
-                r['csv_raised'] = type(e).__name__
-        except Exception as e:  # noqa
-            r['raised'] = type(e).__name__
-        out.append(r)
+        out.append(observe(path))
     Path(argv[3]).write_bytes(pickle.dumps(out))
 
 
@@ -119,16 +127,31 @@ SECTION_RE = re.compile(r'^\s*\*\*\*([^*].*?)\*\*\*\s*$')
 COLON_RE = re.compile(r':(?= |$)')
 
 
+NUMBER = r'[+-]?(?:\d+\.?\d*|\.\d+)(?:[eE][+-]?\d+)?'
+
+
 def num(tok):
-    """the figure a printed token denotes: None for N/A, int without a point, float with one; BAD otherwise"""
-    if tok == 'N/A':
+    """the figure a printed token denotes, read independently of the client: None for N/A-like tokens, int for digits,
+    float otherwise; a token that is no figure at all comes back as ('UNREADABLE', tok) and never equals a client value"""
+    if tok in ('N/A', 'nan', 'NaN', 'inf', '-inf', '+inf'):
         return None
     t = tok.replace(',', '')
     if re.fullmatch(r'[+-]?\d+', t):
         return int(t)
-    if re.fullmatch(r'[+-]?(\d+\.\d*|\.\d+)([eE][+-]?\d+)?', t):
+    if re.fullmatch(NUMBER, t):
         return float(t)
-    return None     # not a number the client can represent ('nan', '1e+05', text): it reports None
+    return ('UNREADABLE', tok)
+
+
+def value_unit(toks, name):
+    """(value, unit) printed for a numeric field: a number, then the unit; '93.48%' is the number 93.48 with unit %"""
+    if not toks:
+        return None, ('count' if name.startswith('Number') else None)
+    first, rest = toks[0], toks[1:]
+    m = re.fullmatch('(' + NUMBER.replace('\\d', '[\\d,]') + r')(%)', first)
+    if m:
+        first, rest = m.group(1), ['%'] + rest
+    return num(first), (' '.join(rest) if rest else ('count' if name.startswith('Number') else None))
 
 
 def scalar_lines(report):
@@ -178,9 +201,8 @@ def expected_fields(report, fields):
                 if kind == 1:
                     exps.append({'value': c[4], 'unit': None})
                 else:
-                    toks = c[2]
-                    unit = ' '.join(toks[1:]) if len(toks) > 1 else ('count' if name.startswith('Number') else None)
-                    exps.append({'value': num(toks[0]) if toks else None, 'unit': unit})
+                    v, u = value_unit(c[2], name)
+                    exps.append({'value': v, 'unit': u})
         uniq = [e for i, e in enumerate(exps) if e not in exps[:i]]
         out[(cat, name)] = ('none',) if not uniq else ('one', uniq[0]) if len(uniq) == 1 else ('ambiguous', uniq)
     return out
